@@ -12,7 +12,7 @@ import (
 )
 
 func init() {
-	register("C09", checkC09, "R9.1: each of the 20 request parsers is abstractly interpreted on an arbitrary frame; on its success path every quantity/count field must range over exactly the specification's interval (too wide = illegal frames decoded, too narrow = legal requests refused) and an FC5 value must be 0x0000 or 0xFF00. R9.3 symbolic round trip parse∘encode = id: the buffer written by Bytes() under the constructor's success state (restricted to specification-legal quantities) is handed, as a symbolic buffer with its recorded writes, to the per-function parser — for RTU both with and without the CRC trailer; every rejecting return of the parser (and of ParseMBAPHeader) must be infeasible and the fields of the parsed object must equal the original's (integers and bools by entailment, payloads by byte identity through the copy chain), hence re-encoding gives the same bytes. R9.4: the request dispatchers call, for each function code, the parser whose type reports that code and framing, and ParseRTURequestWithCRC guards ParseRTURequest with the CRC (C03 R3.2). R9.5 = C01 R1.5: the MBAP header an encoder writes is the struct's own (transaction id, protocol id 0) for any struct contents, so a decoded request re-encodes to the same bytes. R9.6 = shared-state rule from request parsers, dispatchers, request encoders and CRC16. R9.8 = C03 R3.2 for the CRC-verifying request entry point (accepted iff the trailer is the CRC of the whole input before it).")
+	register("C09", checkC09, "R9.1: each of the 20 request parsers is abstractly interpreted on an arbitrary frame; on its success path every quantity/count field must range over exactly the specification's interval (too wide = illegal frames decoded, too narrow = legal requests refused) and an FC5 value must be 0x0000 or 0xFF00. R9.3 symbolic round trip parse∘encode = id: the buffer written by Bytes() under the constructor's success state (restricted to specification-legal quantities) is handed, as a symbolic buffer with its recorded writes, to the per-function parser — for RTU both with and without the CRC trailer; every rejecting return of the parser (and of ParseMBAPHeader) must be infeasible and the fields of the parsed object must equal the original's (integers and bools by entailment, payloads by byte identity through the copy chain), hence re-encoding gives the same bytes. R9.4: the request dispatchers call, for each function code, the parser whose type reports that code and framing, and ParseRTURequestWithCRC guards ParseRTURequest with the CRC (C03 R3.2). R9.5 = C01 R1.5: the MBAP header an encoder writes is the struct's own (transaction id, protocol id 0) for any struct contents, so a decoded request re-encodes to the same bytes. R9.6 = shared-state rule from request parsers, dispatchers, request encoders and CRC16. R9.8 = C03 R3.2 for the CRC-verifying request entry point (accepted iff the trailer is the CRC of the whole input before it). Known findings of R9.3 are keyed by the refused quantity range.")
 }
 
 func checkC09(c *Ctx, r *Report) {
